@@ -1,0 +1,83 @@
+//go:build verif
+
+package fasthttp
+
+// C05: whatever is handed to a header setter, the bytes that reach the stored fields contain no CR or LF.
+// Checked by /verif/gocv (comment-only file; compiled to nothing).
+//
+// Two devices:
+//   - a type-invariant sweep: every method of RequestHeader / ResponseHeader / header that assigns one of the
+//     directly stored fields is enumerated from the source on each run and must leave that field CR/LF-free;
+//   - the storage layer for the multi-valued part (setSpecialHeader, setNonSpecial, appendArgBytes, setArgBytes)
+//     carries the precondition "key and value are CR/LF-free"; every setter is checked to establish it at the call.
+
+//@ func initHeaderValueBytes results r
+//@   property C05
+//@   modifies bufV
+//@   ensures[clean] crlffree(r, len(r)) && len(r) == len(value)
+//@   ensures[grown] extends(r, bufV[:0])
+
+//@ func initHeaderValueString results r
+//@   property C05
+//@   modifies bufV
+//@   ensures[clean] crlffree(r, len(r)) && len(r) == len(value)
+//@   ensures[grown] extends(r, bufV[:0])
+
+//@ func getHeaderKeyBytes results r
+//@   property C05
+//@   modifies bufK
+//@   ensures[clean] crlffree(r, len(r)) && len(r) == len(key)
+//@   ensures[grown] extends(r, bufK[:0])
+
+//@ func initHeaderKV results k v
+//@   property C05
+//@   modifies bufK, bufV
+//@   ensures[clean] crlffree(k, len(k)) && crlffree(v, len(v))
+//@   ensures[grown] extends(k, bufK[:0]) && extends(v, bufV[:0]) && (rgn(k) != rgn(v) || rgn(k) == 0)
+
+//@ typeinv RequestHeader
+//@   property C05
+//@   fields method requestURI host userAgent contentType protocol
+//@   inv[crlf-free] crlffree(F, len(F))
+//@   skip parseFirstLine parseHeaders parse: these store bytes taken from a parsed message, not setter input (C01/C08)
+//@   skip CopyTo copyTo: copies fields of another header that satisfies the same invariant (not re-proved here)
+
+//@ typeinv ResponseHeader
+//@   property C05
+//@   fields statusMessage contentEncoding server contentType protocol
+//@   inv[crlf-free] crlffree(F, len(F))
+//@   skip parseFirstLine parseHeaders parse: these store bytes taken from a parsed message, not setter input (C01/C08)
+//@   skip CopyTo copyTo: copies fields of another header that satisfies the same invariant (not re-proved here)
+
+//@ typeinv header
+//@   property C05
+//@   fields contentType protocol
+//@   inv[crlf-free] crlffree(F, len(F))
+
+// Storage layer of the multi-valued header part. The bodies work on []argsKV and are not verified here (trusted
+// contracts): what matters for C05 is the precondition every caller has to establish.
+//@ func setArgBytes
+//@   trusted
+//@   pure
+//@   requires[clean-key] crlffree(key, len(key))
+//@   requires[clean-value] crlffree(value, len(value))
+//@ func appendArgBytes
+//@   trusted
+//@   pure
+//@   requires[clean-key] crlffree(key, len(key))
+//@   requires[clean-value] crlffree(value, len(value))
+//@ func delAllArgs
+//@   trusted
+//@   pure
+//@ func delAllArgsStable
+//@   trusted
+//@   pure
+//@ func peekArgBytes
+//@   trusted
+//@   pure
+//@ func peekArgStr
+//@   trusted
+//@   pure
+//@ func hasArg
+//@   trusted
+//@   pure
